@@ -1,4 +1,5 @@
 import SnaxVerif.Lemmas.Stream
+import SnaxVerif.Lemmas.StreamLayout
 /-!
 # C02 — Streamer address streams equal the scheduled element stream
 
@@ -352,5 +353,309 @@ theorem xdma_add_second_input_fails :
   refine ⟨{ ub := [2], ts := [64], ss := [8] }, { ub := [2], ts := [16], ss := [8] },
     { ub := [2], ts := [64], ss := [8] }, _, by decide, rfl, ?_⟩
   decide
+
+/-! ## (5) accelerator customisation (`set_stride_patterns`): the data-carrying patterns survive -/
+
+/-- clause `SimdSpatial`: for the rescale-only gemmx op (2 operands) the spatial strides of the i32 input are
+    `[8, 64]` — the customisation overwrites them with exactly that ("the spatial strides do not matter here (i think)").
+    Established by `simd_spatial_of_contiguous` whenever the input row is contiguous and not broadcast. -/
+def SimdSpatial (v : Variant) (ps : List Pattern) (i : Nat) : Prop :=
+  ∀ o s d, v = .gemmx o s d → ps.length = 2 → i = 0 → (ps[0]!).ss = [8, 64]
+
+/-- full statement: every operand's pattern is found unchanged at its `dataIndex` in the customised list -/
+def customize_data_statement : Prop :=
+  ∀ (v : Variant) (ps out : List Pattern) (i : Nat) (hi : i < ps.length),
+    customize v ps = .ok out → out[dataIndex v ps.length i]? = some ps[i]
+
+/-- **customize_data** (partial: not the xDMA add extension — see `xdma_add_streams` / `xdma_add_second_input_fails` —
+    and clause `SimdSpatial`): `set_stride_patterns` of snax_alu (identity) and of every snax_gemmx variant (matmul
+    i32/i8, gemm i32/i8, rescale-only) hands the pattern of every data-carrying operand on unchanged, at the position
+    of the streamer that serves it; the patterns it adds (empty / zero / serializer) sit at the other positions. -/
+theorem customize_data_partial (v : Variant) (ps out : List Pattern) (i : Nat) (hi : i < ps.length)
+    (h : customize v ps = .ok out) (hv : v ≠ .xdmaAdd) (hs : SimdSpatial v ps i) :
+    out[dataIndex v ps.length i]? = some ps[i] := by
+  cases v with
+  | generic =>
+    simp only [customize, Except.ok.injEq] at h; subst h
+    simp [dataIndex]
+  | xdmaAdd => exact absurd rfl hv
+  | gemmxOther =>
+    simp only [customize] at h
+    split at h
+    · exact absurd h (by simp)
+    · split at h
+      · simp only [Except.ok.injEq] at h; subst h; simp [dataIndex]
+      · exact absurd h (by simp)
+  | gemmx o s d =>
+    simp only [customize] at h
+    split at h
+    · next a b c =>
+      split at h <;> simp only [Except.ok.injEq] at h <;> subst h <;>
+        (match i, hi with
+         | 0, _ => simp [dataIndex, *]
+         | 1, _ => simp [dataIndex, *]
+         | 2, _ => simp [dataIndex, *])
+    · next a b c e =>
+      split at h <;> simp only [Except.ok.injEq] at h <;> subst h <;>
+        (match i, hi with
+         | 0, _ => simp [dataIndex, *]
+         | 1, _ => simp [dataIndex, *]
+         | 2, _ => simp [dataIndex, *]
+         | 3, _ => simp [dataIndex, *])
+    · next x y =>
+      simp only [Except.ok.injEq] at h; subst h
+      match i, hi with
+      | 0, _ =>
+        have := hs o s d rfl rfl rfl
+        simp only [List.getElem!_cons_zero] at this
+        simp [dataIndex, ← this]
+      | 1, _ => simp [dataIndex]
+    · exact absurd h (by simp)
+
+/-- …and therefore the FINAL streaming region (after `StridePattern.canonicalize`) streams, on the streamer that serves
+    operand `i`, step by step exactly what the pattern computed by the conversion streams (for any port geometry). -/
+theorem final_data_stream_partial (v : Variant) (ps out : List Pattern) (i : Nat) (hi : i < ps.length) (dims : List Nat)
+    (h : finalPatterns v ps = .ok out) (hv : v ≠ .xdmaAdd) (hs : SimdSpatial v ps i) :
+    ∃ q, out[dataIndex v ps.length i]? = some q ∧ hwStream dims q = hwStream dims ps[i] := by
+  unfold finalPatterns at h
+  cases hc : customize v ps with
+  | error e => simp [hc, Except.map] at h
+  | ok c =>
+    simp only [hc, Except.map, Except.ok.injEq] at h
+    subst h
+    have := customize_data_partial v ps c i hi hc hv hs
+    refine ⟨(ps[i]).canonicalize, ?_, canonicalize_stream dims _⟩
+    rw [List.getElem?_map, this]; rfl
+
+/-- the clause dropped: a broadcast input of the rescale-only op (`ss = [8, 0]`) is overwritten with `[8, 64]` -/
+theorem simd_spatial_fails : ¬ customize_data_statement := by
+  intro h
+  have := h (.gemmx false 1 8) [{ ub := [2], ts := [256], ss := [8, 0] }, { ub := [2], ts := [64], ss := [8] }] _ 0
+    (by decide) rfl
+  revert this
+  decide
+
+/-- `SimdSpatial` holds for every i32 input the conversion accepts on the 8×4-port streamer whose innermost loop is a
+    contiguous row of 8 elements (the gemmx template) and that is not broadcast: the conversion can only produce
+    `ss = [8, 64]`. -/
+theorem simd_spatial_of_contiguous (rest : List Loop) (bc : Bool) (r : Res)
+    (h : toStridePattern ((8, 4) :: rest) [8, 4] bc = .ok r) (hb : NoBroadcast r) : r.pat.ss = [8, 64] := by
+  unfold toStridePattern at h
+  have hf : first ((8, 4) :: rest) = .ok (⟨some (4, 8), rest, false, false⟩, false) := by
+    simp [first, bank]
+  rw [hf] at h
+  simp only [] at h
+  match h2 : spatialLoop bc ⟨some (4, 8), rest, false, false⟩ [8, 4], h with
+  | .ok (ss, st'), h =>
+    simp only [Except.ok.injEq] at h
+    subst h
+    simp only [NoBroadcast] at hb
+    simp only []
+    unfold spatialLoop at h2
+    match h3 : spatialStep bc ⟨some (4, 8), rest, false, false⟩ 8, h2 with
+    | .ok (s1, st1), h2 =>
+      simp only [] at h2
+      unfold spatialLoop at h2
+      match h4 : spatialStep bc st1 4, h2 with
+      | .ok (s2, st2), h2 =>
+        simp only [spatialLoop, Except.ok.injEq, Prod.mk.injEq] at h2
+        obtain ⟨hss, hst⟩ := h2
+        subst hss hst
+        obtain ⟨_, hc1⟩ := spatialStep_emits bc _ _ _ _ h3
+        simp only [Option.some.injEq, Prod.mk.injEq] at hc1
+        obtain ⟨_, hc2⟩ := spatialStep_emits bc _ _ _ _ h4
+        have hb1 : st1.bcast = false := (spatialStep_spec_flags bc st1 st2 4 s2 h4 hb)
+        -- the first fill-up step: 4 < 8 ports, merged with the next loop
+        unfold spatialStep at h3
+        simp only [] at h3
+        match rest, h3 with
+        | (nb, ns) :: r', h3 =>
+          simp only [show ¬ (4 : Nat) = 8 by decide, show (4 : Nat) < 8 by decide, show ¬ (4 : Nat) = 0 by decide,
+            show ¬ (8 % 4 ≠ 0) by decide, if_true, if_false] at h3
+          split at h3
+          · split at h3
+            · simp only [Except.ok.injEq, Prod.mk.injEq] at h3
+              obtain ⟨_, hst1⟩ := h3
+              subst hst1
+              simp at hb1
+            · exact absurd h3 (by simp)
+          · simp only [Except.ok.injEq, Prod.mk.injEq] at h3
+            obtain ⟨_, hst1⟩ := h3
+            subst hst1
+            simp only [Option.some.injEq, Prod.mk.injEq] at hc2
+            rw [← hc1.2, ← hc2.2]
+            decide
+
+/-- **streamers_dataIndex**: the streamer whose geometry (ports, broadcast option) the conversion uses for operand `i`
+    (`get_streamers`) is the streamer at whose position `set_stride_patterns` puts that operand's pattern: selection
+    and placement use the same table, for every gemmx variant and for the xDMA add extension. -/
+theorem streamers_dataIndex (nops outBits ser sd : Nat) (l : List Nat) (h : gemmxStreamers nops outBits = .ok l)
+    (hn : nops = 2 ∨ nops = 3 ∨ nops = 4) :
+    l = (List.range nops).map (dataIndex (.gemmx (outBits == 32) ser sd) nops) ∧
+      xdmaAddStreamers = (List.range 3).map (dataIndex .xdmaAdd 3) := by
+  refine ⟨?_, by decide⟩
+  unfold gemmxStreamers at h
+  rcases hn with rfl | rfl | rfl
+  · simp at h; subst h; simp [dataIndex, List.range_succ]
+  · simp only [if_true] at h
+    split at h
+    · next h32 => simp at h; subst h; subst h32; simp [dataIndex, List.range_succ]
+    · next h32 =>
+      split at h
+      · next h8 => simp at h; subst h; subst h8; simp [dataIndex, List.range_succ]
+      · exact absurd h (by simp)
+  · simp only [show ¬ (4 = 3) by decide, if_false, if_true] at h
+    split at h
+    · next h32 => simp at h; subst h; subst h32; simp [dataIndex, List.range_succ]
+    · next h32 =>
+      split at h
+      · next h8 => simp at h; subst h; subst h8; simp [dataIndex, List.range_succ]
+      · exact absurd h (by simp)
+
+/-- xDMA add extension: the single reader pattern is the first input's pattern with an outer loop `(2, 512)`: every
+    step of the first input is followed by the same step 512 bytes further (where the second input is assumed to lie);
+    the output pattern is handed on unchanged. (That the second input's own pattern is discarded is
+    `xdma_add_second_input_fails`, finding DC02c.) -/
+theorem xdma_add_streams (ps out : List Pattern) (dims : List Nat) (h : customize .xdmaAdd ps = .ok out) :
+    ∃ p0 q o0, ps.head? = some p0 ∧ ps.getLast? = some q ∧ out = [o0, q] ∧
+      hwStream dims o0 = (hwStream dims p0).flatMap fun st => [st, st.map (· + 512)] := by
+  unfold customize at h
+  simp only [] at h
+  split at h
+  · next p q hp hq =>
+    simp only [Except.ok.injEq] at h
+    exact ⟨p, q, _, hp, hq, h.symm, hwStream_cons2 dims p 512⟩
+  · exact absurd h (by simp)
+
+example : ∃ out, customize (.gemmx true 1 8) [⟨[2], [8], [16]⟩, ⟨[2], [64], [8]⟩, ⟨[2], [0], [8, 64]⟩] = .ok out ∧
+    out[dataIndex (.gemmx true 1 8) 3 2]? = some ⟨[2], [0], [8, 64]⟩ := ⟨_, rfl, by decide⟩
+
+example : ∃ r, toStridePattern ((8, 4) :: [(8, 32), (2, 256)]) [8, 4] true = .ok r ∧ NoBroadcast r ∧
+    r.pat.ss = [8, 64] := ⟨_, rfl, by decide⟩
+
+/-! ## (6) `LinearOnBox` established for aligned tiled-strided layouts -/
+
+private theorem inBox_nat : ∀ (bounds : List Nat) (x : List Int), InBox bounds x →
+    ∃ y : List Nat, x = y.map Int.ofNat ∧ Tsl.InBox bounds y
+  | [], x, h => by
+    have : x = [] := List.length_eq_zero_iff.mp h.1
+    subst this
+    exact ⟨[], rfl, trivial⟩
+  | b :: bs, [], h => by have := h.1; simp at this
+  | b :: bs, a :: xs, h => by
+    obtain ⟨hl, hb⟩ := h
+    have h0 := hb 0 (by simp)
+    simp only [List.getElem!_cons_zero] at h0
+    have htail : InBox bs xs := by
+      refine ⟨by simpa using hl, ?_⟩
+      intro i hi
+      have := hb (i + 1) (by simpa using hi)
+      simpa using this
+    obtain ⟨ys, hxs, hys⟩ := inBox_nat bs xs htail
+    refine ⟨a.toNat :: ys, ?_, ?_, hys⟩
+    · simp only [List.map_cons, hxs, List.cons.injEq, and_true]
+      exact (Int.toNat_of_nonneg h0.1).symm
+    · have : ((a.toNat : Nat) : Int) < (b : Int) := by rw [Int.toNat_of_nonneg h0.1]; exact h0.2
+      exact_mod_cast this
+
+/-- clause `Aligned` (decidable on the inputs of the pass, `Model/StreamLayout.lean`): the pattern has no constant
+    term and, with some digit assignment `D`, every operand index is the mixed-radix value of per-tile digits that are
+    non-negative combinations of the schedule dimensions and stay inside their tile on the whole box. -/
+def Aligned (lay : Tsl.SLayout) (A : List (List Int)) (b : List Int) (bounds : List Nat) : Prop :=
+  ∃ D, alignedB lay A b bounds D = true
+
+/-- **tsl_linear_of_aligned**: for every static tiled-strided layout (any rank, any tile depth, positive steps and
+    bounds, gaps allowed), element width and aligned pattern, the map that `dart-layout-resolution` composes
+    (`get_affine_map_in_bytes` of the memref ∘ schedule pattern; the layout part is the C10 model of
+    `TiledStridedLayoutAttr.get_affine_map`) is a linear form on the iteration box: the hypothesis `LinearOnBox` of
+    `resolve_exact_partial` / `C02_partial` is established, with the explicit coefficients `alignedStrides`. -/
+theorem tsl_linear_of_aligned (lay : Tsl.SLayout) (el : Nat) (A : List (List Int)) (b : List Int) (bounds : List Nat)
+    (L : AExpr) (hpos : Tsl.SPos lay) (hL : tslBytes lay el = .ok L) (hal : Aligned lay A b bounds) :
+    LinearOnBox L A b bounds := by
+  obtain ⟨D, hD⟩ := hal
+  refine ⟨alignedStrides lay el D bounds.length, by simp [alignedStrides], ?_⟩
+  intro x hx
+  obtain ⟨y, rfl, hy⟩ := inBox_nat bounds x hx
+  exact aligned_accessEval lay el A b bounds D L hpos hL hD y hy
+
+/-- clause `AlignedCanon`: the same against the canonical layout (`TiledStride.canonicalize`: tiles that continue each
+    other in memory are one tile), with all digits — also the outermost — inside their tiles, i.e. indices inside the
+    shape. Covers schedule dimensions that run across squashable tiles (e.g. a row-major-like `[2, 8] -> (8, 1)`). -/
+def AlignedCanon (lay : Tsl.SLayout) (A : List (List Int)) (b : List Int) (bounds : List Nat) : Prop :=
+  ∃ D, alignedCanonB lay A b bounds D = true
+
+/-- **tsl_linear_of_aligned_canon**: `LinearOnBox` for patterns aligned with the canonical form of the layout (uses the
+    C10 theorem that canonicalisation preserves the address of every index inside the shape). -/
+theorem tsl_linear_of_aligned_canon (lay : Tsl.SLayout) (el : Nat) (A : List (List Int)) (b : List Int)
+    (bounds : List Nat) (L : AExpr) (hpos : Tsl.SPos lay) (hL : tslBytes lay el = .ok L)
+    (hal : AlignedCanon lay A b bounds) : LinearOnBox L A b bounds := by
+  obtain ⟨D, hD⟩ := hal
+  refine ⟨alignedStrides (lay.map squash) el D bounds.length, by simp [alignedStrides], ?_⟩
+  intro x hx
+  obtain ⟨y, rfl, hy⟩ := inBox_nat bounds x hx
+  exact aligned_accessEval_canon lay el A b bounds D L hpos hL hD y hy
+
+/-- the strides that the pass extracts for an aligned operand are the layout's: on the box they reproduce the layout
+    address of every scheduled element (no `LinearOnBox` hypothesis left) -/
+theorem resolve_exact_tsl (lay : Tsl.SLayout) (el : Nat) (A : List (List Int)) (b : List Int) (bounds : List Nat)
+    (L : AExpr) (r : List Int) (hpos : Tsl.SPos lay) (hL : tslBytes lay el = .ok L) (hal : Aligned lay A b bounds)
+    (hres : resolve L A b bounds.length = some r) :
+    ∀ x, InBox bounds x → accessEval L A b x = some (dotI r x) :=
+  resolve_exact_partial L A b bounds r (tsl_linear_of_aligned lay el A b bounds L hpos hL hal) hres
+
+/-- **C02_tsl_partial**: `C02_partial` for operands with a tiled-strided layout, with `LinearOnBox` replaced by the
+    decidable input condition `Aligned`. -/
+theorem C02_tsl_partial (lay : Tsl.SLayout) (A : List (List Int)) (b : List Int) (bounds : List Nat) (dims : List Nat)
+    (bc : Bool) (el : Nat) (L : AExpr) (s : List Int) (r : Res)
+    (hpos : Tsl.SPos lay) (hL : tslBytes lay el = .ok L) (hal : Aligned lay A b bounds)
+    (hres : resolve L A b bounds.length = some s)
+    (hconv : toStridePattern (accessIter s bounds (bounds.map fun _ => true)) dims bc = .ok r)
+    (hbank : BankContiguous el (accessIter s bounds (bounds.map fun _ => true)) r)
+    (hex : ExactDivision r) (hnb : NoBroadcast r) :
+    (hwStream dims r.pat).flatten.map some =
+      (points bounds).flatMap fun x => (List.range el).map fun (k : Nat) =>
+        (accessEval L A b (x.map Int.ofNat)).map (· + (k : Int)) :=
+  C02_partial L A b bounds dims bc el s r (tsl_linear_of_aligned lay el A b bounds L hpos hL hal) hres hconv hbank hex hnb
+
+/-- non-vacuity of the canonical variant: `memref<16x8xi8, #tsl.tsl<[2, 8] -> (64, 8), [8] -> (1)>>` walked by one
+    schedule dimension of bound 16 over the rows: not aligned with the tiles as written, aligned with the squashed
+    layout `[16] -> (8)`. -/
+example : ¬ alignedB [[⟨64, 2⟩, ⟨8, 8⟩], [⟨1, 8⟩]] [[1, 0], [0, 1]] [0, 0] [16, 8]
+      (autoDigits [[⟨64, 2⟩, ⟨8, 8⟩], [⟨1, 8⟩]] [[1, 0], [0, 1]]) = true ∧
+    AlignedCanon [[⟨64, 2⟩, ⟨8, 8⟩], [⟨1, 8⟩]] [[1, 0], [0, 1]] [0, 0] [16, 8] :=
+  ⟨by decide, ⟨autoDigits ([[⟨64, 2⟩, ⟨8, 8⟩], [⟨1, 8⟩]].map squash) [[1, 0], [0, 1]], by decide⟩⟩
+
+/-- the layout's `offset` never reaches layout resolution: `get_affine_map` of a tiled-strided layout is the same
+    expression for every offset (finding DC02a, second half: an operand with `offset ≠ 0` is streamed from the aligned
+    pointer). The theorems of this section are therefore statements about layouts with offset 0 — exactly the layouts
+    for which `tslBytes` IS the layout's byte address function (`Tsl.addr`, C10 `affDims_eval`). -/
+theorem tsl_offset_ignored (lay : Tsl.SLayout) (off : Option Int) :
+    (Tsl.ofStatic lay off).affineMap = (Tsl.ofStatic lay (some 0)).affineMap := rfl
+
+/-- full statement without the clause: false (finding DC02a, unaligned tiles) -/
+def resolve_exact_tsl_statement : Prop :=
+  ∀ (lay : Tsl.SLayout) (el : Nat) (A : List (List Int)) (b : List Int) (bounds : List Nat) (L : AExpr) (r : List Int),
+    Tsl.SPos lay → tslBytes lay el = .ok L → resolve L A b bounds.length = some r →
+    ∀ x, InBox bounds x → accessEval L A b x = some (dotI r x)
+
+/-- `memref<6xi8, #tsl.tsl<[2, 3] -> (8, 1)>>` walked by a schedule dimension of bound 6 (tile of 3, not aligned):
+    the unit response is 1, element 3 lives at byte 8. -/
+theorem tsl_unaligned_fails : ¬ resolve_exact_tsl_statement := by
+  intro h
+  have := h [[⟨8, 2⟩, ⟨1, 3⟩]] 1 [[1]] [0] [6] _ [1] (by decide) rfl (by decide) [3]
+    ⟨rfl, by intro i hi; have : i = 0 := by simpa using hi
+             subst this; decide⟩
+  revert this
+  decide
+
+/-- non-vacuity: gemmx operand A of the seeded demo, `memref<16x16xi8, #tsl.tsl<[2, 8] -> (128, 8), [2, 8] -> (64, 1)>>`,
+    schedule `(d0..d5) -> (8·d1 + d3, 8·d2 + d5)`, bounds [2,2,2,8,8,8]; the digit assignment is the computed one. -/
+example : Aligned [[⟨128, 2⟩, ⟨8, 8⟩], [⟨64, 2⟩, ⟨1, 8⟩]] [[0, 8, 0, 1, 0, 0], [0, 0, 8, 0, 0, 1]] [0, 0]
+    [2, 2, 2, 8, 8, 8] :=
+  ⟨autoDigits [[⟨128, 2⟩, ⟨8, 8⟩], [⟨64, 2⟩, ⟨1, 8⟩]] [[0, 8, 0, 1, 0, 0], [0, 0, 8, 0, 0, 1]], by decide⟩
+
+example : alignedStrides [[⟨128, 2⟩, ⟨8, 8⟩], [⟨64, 2⟩, ⟨1, 8⟩]] 1
+    (autoDigits [[⟨128, 2⟩, ⟨8, 8⟩], [⟨64, 2⟩, ⟨1, 8⟩]] [[0, 8, 0, 1, 0, 0], [0, 0, 8, 0, 0, 1]]) 6 =
+    [0, 128, 64, 8, 0, 1] := by decide
 
 end SnaxVerif.C02
